@@ -2,15 +2,11 @@ package harness
 
 import "verifsim/simrt"
 
-type multiState struct{}
 
 func (e *Exec) catchUp()                      {}
 func (e *Exec) readOnlyOps(op Op)             {}
-func (e *Exec) postCloseCalls()               {}
-func (e *Exec) runMulti()                     {}
 func (e *Exec) checkDurableNow(j int)         {}
 
-func genMulti(c *Case, r *simrt.Rand, tier string)    { genSingle(c, r, propCfg("C01")) }
 func genCrash(c *Case, r *simrt.Rand, tier string)    { genSingle(c, r, propCfg("C04")) }
 func genFault(c *Case, r *simrt.Rand, tier string)    { genSingle(c, r, propCfg("C04")) }
 func genReadOnly(c *Case, r *simrt.Rand, tier string) { genSingle(c, r, propCfg("C04")) }
